@@ -126,11 +126,21 @@ let rec dgroups = function
   | _ -> failwith "bad ds-proof group words"
 
 let handle = function
-  | "dsproof" :: t :: ci :: cb :: tbl :: gs ->
+  | "dsproof" :: t :: ci :: cb :: tbl :: cn :: gs ->
       show_o (function InsecureDelegation -> "Insecure" | _ -> "Bogus")
-        (no_ds_decision (hfun (htable tbl)) (n_of_s ci) (n_of_s cb) (name_of_hex t) (dgroups gs))
-  | "wild" :: sname :: stw :: signer :: ce :: gs ->
-      show_o str_vstate (wildcard_msg_state (fun _ _ _ -> []) (n_of_int 100) (n_of_int 500) (name_of_hex sname) (vstate_of stw) (name_of_hex signer) (oname_of_hex ce) (sgroups gs))
+        (ds_reply_decision (hfun (htable tbl)) (n_of_s ci) (n_of_s cb) (name_of_hex t)
+           (match cn with "C0" -> NoCname | "C1" -> CnameValid | "C2" -> CnameInvalid | _ -> failwith "bad cname word") (dgroups gs))
+  | "wild" :: sname :: stw :: signer :: ce :: tbl :: nn :: gs ->
+      let rec split k l acc = if k = 0 then (List.rev acc, l) else match l with [] -> failwith "short wild case" | x :: r -> split (k - 1) r (x :: acc) in
+      let (nw, n3w) = split (9 * int_of_string nn) gs [] in
+      let rec n3s = function
+        | [] -> []
+        | nrr :: isn3 :: stt :: signer :: alg :: oo :: iter :: salt :: label :: next :: types :: rest ->
+            ({ h_nrr = n_of_s nrr; h_is_nsec3 = b_of isn3; h_secure = (stt = "Secure"); h_signer = name_of_hex signer; h_alg = n_of_s alg;
+               h_optout = b_of oo; h_iter = n_of_s iter; h_salt = bytes_of_hex salt; h_label = bytes_of_hex label; h_next = bytes_of_hex next;
+               h_types = types_of types }, vstate_of stt) :: n3s rest
+        | _ -> failwith "bad nsec3 group words" in
+      show_o str_vstate (wildcard_msg_state (hfun (htable tbl)) (n_of_int 100) (n_of_int 500) (name_of_hex sname) (vstate_of stw) (name_of_hex signer) (oname_of_hex ce) (sgroups nw) (n3s n3w))
   | "anchor" :: maxbad :: nta :: nkeys :: nsigs :: ws -> anchor_case maxbad (int_of_string nta) (int_of_string nkeys) (int_of_string nsigs) ws
   | "child" :: maxbad :: nds :: nkeys :: nsigs :: ws -> child_case maxbad (int_of_string nds) (int_of_string nkeys) (int_of_string nsigs) ws
   | "n3" :: f :: t :: qt :: signer :: ci :: cb :: tbl :: gs ->
@@ -156,6 +166,11 @@ let handle = function
   | "negmsg" :: nx :: t :: qt :: signer :: gs ->
       show_o (fun (s, e) -> (match s with Secure -> "Secure" | Insecure -> "Insecure" | Bogus -> "Bogus" | Indeterminate -> "Indeterminate") ^ " " ^ string_of_int (int_of_n e))
         (negative_msg_state (b_of nx) (name_of_hex t) (n_of_s qt) (name_of_hex signer) (sgroups gs))
+  | ["anchorttl"; n1; n2; maxv; dttl; rt; ot; exp] ->
+      show_o sb (anchor_still_trusts (n_of_s n1) (n_of_s n2) (n_of_s maxv) (n_of_s dttl) { st_rr_ttl = n_of_s rt; st_orig_ttl = n_of_s ot; st_expiration = n_of_s exp })
+  | ["childttl"; n1; n2; pl; dsttl; drt; dot; dexp; kttl; krt; kot; kexp] ->
+      show_o sb (child_still_trusts (n_of_s n1) (n_of_s n2) (n_of_s pl) (n_of_s dsttl) { st_rr_ttl = n_of_s drt; st_orig_ttl = n_of_s dot; st_expiration = n_of_s dexp }
+                   (n_of_s kttl) { st_rr_ttl = n_of_s krt; st_orig_ttl = n_of_s kot; st_expiration = n_of_s kexp })
   | ["reval"; n1; n2; inc; exp] -> show_o sb (revalidate (n_of_s n1) (n_of_s n2) (n_of_s inc) (n_of_s exp))
   | ["sigtime"; now; inc; exp] -> sb (c14_sig_time_ok (n_of_s now) (n_of_s inc) (n_of_s exp))
   | ["wce"; owner; labels] -> (match c14_wildcard_ce (name_of_hex owner) (n_of_s labels) with None -> "-" | Some ce -> hex_of_name ce)
